@@ -199,10 +199,10 @@ fn main() {
 fn strip_eol(data: &str) -> &str {
     let mut bytes = data.as_bytes();
     let mut len = bytes.len();
-    if len > 1 && bytes[len - 1] == b'\n' {
+    if len > 0 && bytes[len - 1] == b'\n' {
         len = len - 1;
         bytes = &bytes[..len];
-        if len > 1 && bytes[len - 1] == b'\r' {
+        if len > 0 && bytes[len - 1] == b'\r' {
             len = len - 1;
             bytes = &bytes[..len];
         }
